@@ -48,6 +48,8 @@ let parse_acct () : n * account =
       a_created = created; a_lastacc = lastacc; a_parent = parent; a_storage = stor; a_lookups = looks;
       a_preimages = pre }
   in
+  let rec has_dup = function [] -> false | x :: t -> List.mem x t || has_dup t in
+  if has_dup (List.map fst stor) || has_dup (List.map fst looks) || has_dup pre then failwith "BADCASE";
   if !pos < Array.length !toks && !toks.(!pos) = "RC" then begin
     incr pos;
     let i = nn () in
@@ -129,7 +131,7 @@ let full_acct (id, a) =
   Printf.sprintf "%s{%s,%s,%s,%s,%s,%s,%s|%s|%s|%s}" (sn id) (hex_of_bytes a.a_code) (sn a.a_g) (sn a.a_m) (sn a.a_gratis)
     (sn a.a_created) (sn a.a_lastacc) (sn a.a_parent) (join "," st) (join "," lk) (join "," pi)
 
-let acc_model toks_l =
+let acc_model_raw toks_l =
   toks := Array.of_list toks_l;
   pos := 0;
   match next () with
@@ -151,6 +153,8 @@ let acc_model toks_l =
     expect "A";
     let na = int_of_string (next ()) in
     let accts = times na parse_acct in
+    let rec has_dup = function [] -> false | x :: t -> List.mem x t || has_dup t in
+    if has_dup (List.map fst accts) then failwith "BADCASE";
     expect "O";
     let no = int_of_string (next ()) in
     let ops = times no parse_op in
@@ -190,3 +194,5 @@ let acc_model toks_l =
     let _, a = parse_acct () in
     Printf.sprintf "%s %s %s" (sn (items_of a)) (sn (octets_of a)) (sn (threshold_u64 (items_of a) (octets_of a) a.a_gratis))
   | _ -> "BADCASE"
+
+let acc_model toks_l = try acc_model_raw toks_l with Failure m when m = "BADCASE" -> "BADCASE"
